@@ -46,6 +46,9 @@ def cells_for(tier, seed):
         kernel = ["tpcn", "rwm"][(i // len(fams) + i) % 2]
         cells.append(ens.make_cell(int(rng.integers(0, 2**31 - 1)), family=fam, kernel=kernel, clustering=bool((i // 2 + i // len(fams)) % 2),
                                    N=64 if (tier == "quick" or i % 3) else 256))
+    # one large-N interior cell in every tier: the finite-particle allowance is small there, which is what lets the paired
+    # trimmed-vs-untrimmed comparison (and the absolute test) resolve a bias of a few per cent
+    cells.append(ens.make_cell(int(rng.integers(0, 2**31 - 1)), family="gauss", kernel="tpcn", clustering=False, d=1, N=256))
     return cells
 
 
@@ -77,8 +80,16 @@ class Runs:
         with ProcessPoolExecutor(max_workers=16, mp_context=mp.get_context("fork")) as ex:
             for r in ex.map(_chunk_star, [(cell, 0, case["seed"], 2, k * CHUNK, CHUNK) for k in range(case["R"] // CHUNK)]):
                 reps.extend(r)
-        vals = [r["errs"][key] for r in reps if "errs" in r]
-        m, s, allowed, flagged = ens.bias_test(vals, case["alpha"], A_COEF)
+        if key.startswith("paired:"):
+            good = [r for r in reps if "errs" in r]
+            dv = np.array([r["errs"]["trimmed:" + key[7:]] - r["errs"]["untrimmed:" + key[7:]] for r in good])
+            su = float(np.std([r["errs"]["untrimmed:" + key[7:]] for r in good], ddof=1))
+            m, s = float(dv.mean()), float(dv.std(ddof=1))
+            allowed = float(ens.stats.t.isf(case["alpha"] / 2, len(dv) - 1)) * s / math.sqrt(len(dv)) + 6.0 * su * su
+            flagged, vals = abs(m) > allowed, dv
+        else:
+            vals = [r["errs"][key] for r in reps if "errs" in r]
+            m, s, allowed, flagged = ens.bias_test(vals, case["alpha"], A_COEF)
         if flagged:
             raise Violation(describe(cell, key, m, s, allowed, len(vals), reps), sig=signature(cell, key, m, reps))
         return {}
@@ -103,6 +114,7 @@ def run_chunk(cell, ci, seed, stage, start, count):
 def signature(cell, key, m, reps):
     cross = float(np.mean([r["crossing"] for r in reps if "errs" in r] or [0.0]))
     est, what = key.split(":") if ":" in key else ("-", key)
+    est = "trimmed-vs-untrimmed" if est == "paired" else est
     return {"kind": "posterior-biased", "kernel": cell["kernel"], "clustering": cell["clustering"], "family": cell["family"],
             "estimator": est, "estimand": "".join(c for c in what if not c.isdigit()).split("@")[0], "sign": "+" if m > 0 else "-",
             "folded": cell["family"] in ("periodic", "reflective"), "labels": "position" if cell["clustering"] else "none",
@@ -150,6 +162,19 @@ def finish(rec, tier, seed, jobs):
                           "estimand": key, "mean_err": round(m, 5), "sd": round(s, 5), "allowed": round(allowed, 5), "R": len(ok)})
             if fl:
                 flagged.append((key, m))
+        # paired comparison of the default (trimmed) output with the untrimmed one on the same runs: if both are consistent
+        # their difference is bounded by the two finite-particle allowances (6 s_u^2), with far less Monte-Carlo noise.
+        # Only evaluated for large-N cells, where that allowance is small enough for the comparison to mean something.
+        for key in [k for k in ok[0]["errs"] if k.startswith("untrimmed:") and cell["N"] >= 256]:
+            kt = "trimmed:" + key.split(":", 1)[1]
+            dv = np.array([r["errs"][kt] - r["errs"][key] for r in ok])
+            su = float(np.std([r["errs"][key] for r in ok], ddof=1))
+            md, sd_ = float(dv.mean()), float(dv.std(ddof=1))
+            allowed = float(ens.stats.t.isf(1e-6 / 2, len(dv) - 1)) * sd_ / math.sqrt(len(dv)) + 6.0 * su * su
+            table.append({"cell": ci, "family": cell["family"], "kernel": cell["kernel"], "clustering": cell["clustering"], "N": cell["N"],
+                          "estimand": "paired:" + key.split(":", 1)[1], "mean_err": round(md, 5), "sd": round(sd_, 5), "allowed": round(allowed, 5), "R": len(ok)})
+            if abs(md) > allowed:
+                flagged.append(("paired:" + key.split(":", 1)[1], md))
         if not flagged:
             continue
         # stage 2: fresh disjoint seeds, 2R replicas (once per cell, shared by all flagged estimands)
@@ -160,7 +185,15 @@ def finish(rec, tier, seed, jobs):
         ok2 = [r for r in reps2 if "errs" in r]
         rec.evaluations += len(reps2)
         for key, m1 in flagged:
-            m, s, allowed, fl = ens.bias_test([r["errs"][key] for r in ok2], 1e-4, A_COEF)
+            if key.startswith("paired:"):
+                ku, kt = "untrimmed:" + key[7:], "trimmed:" + key[7:]
+                dv = np.array([r["errs"][kt] - r["errs"][ku] for r in ok2])
+                su = float(np.std([r["errs"][ku] for r in ok2], ddof=1))
+                m, s = float(dv.mean()), float(dv.std(ddof=1))
+                allowed = float(ens.stats.t.isf(1e-4 / 2, len(dv) - 1)) * s / math.sqrt(len(dv)) + 6.0 * su * su
+                fl = abs(m) > allowed
+            else:
+                m, s, allowed, fl = ens.bias_test([r["errs"][key] for r in ok2], 1e-4, A_COEF)
             if not fl or (m > 0) != (m1 > 0):
                 rec.classes[f"{CHECK}:stage1-flag-not-confirmed"] += 1
                 continue
